@@ -34,7 +34,7 @@ Image(r) ==
   [i \in 1..r.T |-> IF i <= 8 THEN hdr[i] ELSE IF i > r.T - 8 THEN EndTagBytes[i - (r.T - 8)] ELSE withH[i]]
 
 Ops == { [op |-> "next", it |-> 0], [op |-> "next", it |-> 1], [op |-> "clone", it |-> 0, to |-> 2],
-         [op |-> "nth", it |-> 0, n |-> 1], [op |-> "count", it |-> 0], [op |-> "count", it |-> 3],
+         [op |-> "nth", it |-> 0, n |-> 1], [op |-> "nth", it |-> 1, n |-> 4], [op |-> "count", it |-> 0], [op |-> "count", it |-> 3],
          [op |-> "next", it |-> 2], [op |-> "next", it |-> 3], [op |-> "clone", it |-> 3, to |-> 4], [op |-> "next", it |-> 4] }
 RECURSIVE SeqsOfLen(_, _)
 SeqsOfLen(S, n) == IF n = 0 THEN {<<>>} ELSE { <<x>> \o r : x \in S, r \in SeqsOfLen(S, n - 1) }
